@@ -130,6 +130,28 @@ fn classes() -> Vec<Class> {
             asynch: |c| block_on(c.noop()).map(|v| rec(&v)),
         },
         Class {
+            name: "union (bodyUnion)",
+            empty: None,
+            bodies: vec![
+                ("{\"type\":\"text\",\"text\":\"t\"}", Some("{\"type\":\"text\",\"text\":\"t\"}")),
+                ("{\"text\":\"t\",\"type\":\"text\"}", Some("{\"type\":\"text\",\"text\":\"t\"}")),
+                ("{\"type\":\"zz\",\"zz\":[1]}", Some("{\"type\":\"zz\",\"zz\":[1]}")),
+                ("{\"zz\":[1],\"type\":\"zz\"}", Some("{\"type\":\"zz\",\"zz\":[1]}")),
+                // the member named by `type` and the member present must be the same one
+                ("{\"square\":2,\"type\":\"hexagon\"}", None),
+                ("{\"type\":\"hexagon\",\"square\":2}", None),
+                ("{\"text\":\"t\",\"type\":\"numbers\"}", None),
+                ("{\"text\":\"t\",\"type\":\"zz\"}", None),
+                ("{\"zz\":1,\"type\":\"text\"}", None),
+                ("{\"type\":\"text\"}", None),
+                ("{\"text\":\"t\"}", None),
+                ("{\"type\":\"text\",\"text\":5}", None),
+                ("null", None),
+            ],
+            blocking: |c| c.body_union(&Choice::Text("x".into())).map(|v| rec(&v)),
+            asynch: |c| block_on(c.body_union(&Choice::Text("x".into()))).map(|v| rec(&v)),
+        },
+        Class {
             name: "integer (safeBody)",
             empty: None,
             bodies: vec![("7", Some("7")), (" 7 ", Some("7")), ("7 8", None), ("7.5", None), ("\"7\"", None), ("2147483648", None)],
